@@ -118,6 +118,9 @@ func (e *Engine) GenVC(fn *ssa.Function, opts VerifyOpts) (res *FuncVC) {
 		vc.noRebase = true
 	}
 	vc.binderRange = fr.contract != nil && fr.contract.Options["binder-range"]
+	vc.specRange = fr.contract != nil && fr.contract.Options["spec-range"]
+	vc.nilBaseUnwritten = fr.contract != nil && fr.contract.Options["nil-base-unwritten"]
+	vc.closedMapSlices = fr.contract != nil && fr.contract.Options["closed-map-slices"]
 	if fr.contract != nil && fr.contract.Options["heap-closedness"] {
 		vc.closedness = true
 	}
@@ -224,6 +227,7 @@ func (e *Engine) GenVC(fn *ssa.Function, opts VerifyOpts) (res *FuncVC) {
 	fr.entry.reach = st.reach
 	results, out := fr.run(st)
 	fname := res.Name
+	exitReach := ""
 	if out != nil && fr.contract != nil && !opts.SafetyOnly {
 		penv := fr.baseEnv(out)
 		penv.old = fr.entry
@@ -238,18 +242,29 @@ func (e *Engine) GenVC(fn *ssa.Function, opts VerifyOpts) (res *FuncVC) {
 				penv.names["result"] = tv
 			}
 		}
+		exitReach = out.reach
 		for i, c := range fr.contract.Ensures {
 			goal := fr.evalClause(penv, c)
 			label := fmt.Sprintf("%d", i+1)
 			if c.Name != "" {
 				label = c.Name
 			}
-			vc.addOblig("post", fmt.Sprintf("%s#post:%s", fname, label), out, goal, fn.Pos(), c.Text)
+			on := fmt.Sprintf("%s#post:%s", fname, label)
+			vc.addOblig("post", on, out, goal, fn.Pos(), c.Text)
+			// `option chain-ensures`: the postconditions are proved in the order written, each under the ones before it
+			// (like consecutive `assert before` cuts: A, then B under A, proves A && B). A postcondition that the running
+			// check does not claim is not assumed (11.10).
+			if fr.contract.Options["chain-ensures"] && !(vc.noAssume != nil && vc.noAssume(on, "post")) {
+				out.reach = vc.define("r", "Bool", and(out.reach, goal))
+			}
 		}
 	}
 	// vacuity guard: the exit must be reachable under the assumptions made
 	if out != nil {
-		vc.obligs = append(vc.obligs, &Oblig{Name: fname + "#cover:exit", Kind: "cover", Reach: out.reach, Goal: "false", IsCover: true, Func: fn.String(), Text: "some execution reaches a return"})
+		if exitReach == "" {
+			exitReach = out.reach
+		}
+		vc.obligs = append(vc.obligs, &Oblig{Name: fname + "#cover:exit", Kind: "cover", Reach: exitReach, Goal: "false", IsCover: true, Func: fn.String(), Text: "some execution reaches a return"})
 	}
 	// an `assert before <callee>@k` clause that never met its call site no longer describes the code: contract drift
 	if fr.contract != nil {
